@@ -140,7 +140,9 @@ class Fragment:
         collector(self)
 
         new_domains = []
-        for domain_name in collector.used_domains - collector.defined_domains:
+        # Iterate in a deterministic order: the result (created domains, their ports, added
+        # subfragments) must not depend on the string hash seed.
+        for domain_name in sorted(collector.used_domains - collector.defined_domains):
             if domain_name == "comb":
                 continue
             value = missing_domain(domain_name)
